@@ -1347,6 +1347,17 @@ impl Sessions {
         Ok((value, to_persist))
     }
 
+    /// Give back the `value` just obtained from
+    /// [`Sessions::reserve_global_group_data_ctr`] because the boundary that
+    /// reservation asked for could not be stored.
+    ///
+    /// The counter is put back to `value` with the boundary covering nothing, so
+    /// that the next reservation again moves the boundary and demands it be
+    /// written - instead of handing out values no durable boundary covers.
+    pub(crate) fn unreserve_global_group_data_ctr(&mut self, value: u32) {
+        self.set_global_group_data_ctr(value);
+    }
+
     /// Get or create a TX group session for sending group data messages to
     /// `(fab_idx, group_id)`.
     ///
